@@ -186,6 +186,13 @@ func (x *Exec) eval(env *Env, e *Expr) Value {
 		return x.evalSel(env, e)
 	case "index":
 		base := x.eval(env, e.Args[0])
+		if sc, ok := base.(Scalar); ok {
+			if mt, isMap := sc.Ty.Underlying().(*types.Map); isMap {
+				kv := x.materialize(env, x.eval(env, e.Args[1]))
+				v, _ := x.mapLookup(st, sc.T, mt, x.mapKeyTerm(st, kv, mt.Key()))
+				return v
+			}
+		}
 		idx := x.idxOf(env, x.eval(env, e.Args[1]))
 		switch b := base.(type) {
 		case SliceV:
@@ -398,8 +405,17 @@ func (x *Exec) evalBinary(env *Env, e *Expr) Value {
 	case "<==>":
 		return Scalar{Eq(x.asBool(x.eval(env, e.Args[0]), e), x.asBool(x.eval(env, e.Args[1]), e)), tyBool}
 	}
-	l := x.materialize(env, x.eval(env, e.Args[0]))
-	r := x.materialize(env, x.eval(env, e.Args[1]))
+	l := x.eval(env, e.Args[0])
+	r := x.eval(env, e.Args[1])
+	if !((e.Op == "==" || e.Op == "!=") && (l == nil || r == nil)) {
+		// comparisons with nil look at the pointer, everything else at the value
+		if lp, ok := l.(PtrV); !(ok && lp.Ref != nil && (e.Op == "==" || e.Op == "!=") && isPtrLike(r)) {
+			l = x.materialize(env, l)
+		}
+		if rp, ok := r.(PtrV); !(ok && rp.Ref != nil && (e.Op == "==" || e.Op == "!=") && isPtrLike(l)) {
+			r = x.materialize(env, r)
+		}
+	}
 	tok := binTok[e.Op]
 	// constants
 	lc, lok := l.(ConstV)
@@ -849,6 +865,23 @@ func (x *Exec) evalCall(env *Env, e *Expr) Value {
 		if sf, ok := x.P.CS.Specs[fn.Name]; ok {
 			return x.callSpec(env, sf, args, e)
 		}
+		if gm, ok := x.P.CS.GhostMaps[fn.Name]; ok {
+			arr, idx, rty := x.ghostMapAccess(env, gm, args, e)
+			t := arr
+			for _, i := range idx {
+				t = Select(t, i)
+			}
+			return Scalar{t, rty}
+		}
+		if fn.Name == "funcIs" && len(args) == 2 {
+			// funcIs(f, "name"): the function value is (a thunk of) the named method/function
+			v := x.eval(env, args[0])
+			fv, ok := v.(FuncV)
+			if !ok || fv.Fn == nil {
+				return Scalar{TFalse, tyBool}
+			}
+			return Scalar{Bool(strings.Contains(fv.Fn.Name(), args[1].Name)), tyBool}
+		}
 		// named type conversion, e.g. Kind(x)
 		if ty := x.lookupType(env, fn.Name); ty != nil && len(args) == 1 {
 			v := x.eval(env, args[0])
@@ -1206,4 +1239,74 @@ func eventMatch(ev, pat string) bool {
 		return c == '_' || c >= '0' && c <= '9' || c >= 'a' && c <= 'z' || c >= 'A' && c <= 'Z'
 	}
 	return !(isWord(pat[len(pat)-1]) && isWord(ev[len(pat)]))
+}
+
+func (x *Exec) ghostMapSort(env *Env, gm *SpecFunc) (string, types.Type) {
+	rty := x.lookupType(env, gm.Result)
+	if rty == nil {
+		x.fail("ghostmap %s: unknown result type %s", gm.Name, gm.Result)
+	}
+	sort := env.St.A.SortOf(rty)
+	for range gm.Params {
+		sort = SArr(SInt, sort)
+	}
+	return sort, rty
+}
+
+// ghostMapAccess returns the ghost map's array, the index terms and the result type.
+func (x *Exec) ghostMapAccess(env *Env, gm *SpecFunc, args []*Expr, e *Expr) (*Term, []*Term, types.Type) {
+	if len(args) != len(gm.Params) {
+		x.fail("ghost map %s: %d indices expected in %s", gm.Name, len(gm.Params), e)
+	}
+	sort, rty := x.ghostMapSort(env, gm)
+	key := "gmap:" + gm.Name
+	st := env.St
+	arr, ok := st.Heap[key]
+	if !ok {
+		arr = Var("H0$"+key, sort)
+		st.Heap[key] = arr
+	}
+	var idx []*Term
+	for _, a := range args {
+		v := x.materialize(env, x.eval(env, a))
+		switch s := v.(type) {
+		case Scalar:
+			idx = append(idx, s.T)
+		case PtrV:
+			idx = append(idx, st.scalarTerm(s, refType))
+		case nil:
+			idx = append(idx, IntC(0))
+		default:
+			x.fail("ghost map index must be a reference or scalar in %s", e)
+		}
+	}
+	return arr, idx, rty
+}
+
+// ghostMapStore writes m(idx...) = v.
+func (x *Exec) ghostMapStore(env *Env, lhs *Expr, v Value) {
+	gm := x.P.CS.GhostMaps[lhs.Args[0].Name]
+	arr, idx, rty := x.ghostMapAccess(env, gm, lhs.Args[1:], lhs)
+	val := env.St.scalarTerm(x.coerce(env.St, v, rty), rty)
+	var rec func(a *Term, k int) *Term
+	rec = func(a *Term, k int) *Term {
+		if k == len(idx)-1 {
+			return Store(a, idx[k], val)
+		}
+		return Store(a, idx[k], rec(Select(a, idx[k]), k+1))
+	}
+	env.St.Heap["gmap:"+gm.Name] = rec(arr, 0)
+}
+
+func isPtrLike(v Value) bool {
+	switch p := v.(type) {
+	case PtrV:
+		return p.Ref != nil
+	case Scalar:
+		if p.Ty != nil {
+			_, ok := p.Ty.Underlying().(*types.Pointer)
+			return ok
+		}
+	}
+	return false
 }
